@@ -23,13 +23,15 @@ def _model_query_items(raw):
     return out
 
 
-def check_views(ctx, backend, mode, comp, text):
+def check_views(ctx, backend, mode, comp, text, place=None):
     Y = ctx.yarl(backend)
     t = text
+    if place:
+        comp = place.split("-")[0]
     strip = {"user": "/?#@:[]\\", "password": "/?#@[]\\", "path": "?#", "query": "#", "fragment": ""}[comp]
     t = t.translate({ord(c): None for c in strip}).replace("\t", "").replace("\r", "").replace("\n", "")
     s = {"user": "http://%s@h.example/p", "password": "http://u:%s@h.example/p", "path": "http://h.example/%s", "query": "http://h.example/p?%s",
-         "fragment": "http://h.example/p#%s"}[comp] % t
+         "fragment": "http://h.example/p#%s", "query-nopath": "http://h.example?%s", "user-nopath": "http://%s@h.example", "path-rel": "/%s", "path-rootless": "x%s"}[place or comp] % t
     try:
         u = Y.URL(s, encoded=(mode == "enc"))
     except ValueError:
@@ -127,6 +129,8 @@ def esc_heavy():
 def generated(ctx, backend, n):
     ctx.given("views", {"mode": st.sampled_from(["enc", "auto"]), "comp": st.sampled_from(["user", "password", "path", "query", "fragment"]), "text": esc_heavy()},
               max_examples=n, fixed={"backend": backend})
+    places = st.sampled_from(["query-nopath", "user-nopath", "path-rel", "path-rootless"])
+    ctx.given("views", {"mode": st.sampled_from(["enc", "auto"]), "place": places, "text": esc_heavy()}, max_examples=n // 4, fixed={"backend": backend, "comp": None}, tag="places")
     txt = gen.text(surrogates=False, max_tokens=8, dots=True)
     ctx.given("readback", {"e": st.sampled_from(RB_NAMES), "text": txt}, max_examples=n, fixed={"backend": backend}, tag="rb")
 
